@@ -2,6 +2,12 @@
 
 package pptx
 
+import (
+	"strings"
+
+	"github.com/tsawler/tabula/rag"
+)
+
 // ---- reference reader for GitHub-flavoured-Markdown pipe tables (GFM spec 4.10), used as the oracle.
 
 // vGFMSplitRow splits one table line into trimmed cell texts; "\|" is a literal pipe.
@@ -287,4 +293,35 @@ func joinLines(ls []string) string {
 		out += l + "\n"
 	}
 	return out
+}
+
+// H_C15_pptx_heading_options: the slide title is a level-1 heading shifted by the configured offset and capped.
+//
+//symgo:harness prop=C15 kernel=K3d-pptx-heading-options
+//symgo:desc reader with one slide (title "TitleX", one body paragraph); MarkdownWithRAGOptions with HeadingLevelOffset in {-1, 0, 2, 7} and MaxHeadingLevel in {1, 3, 6} (enumerated), no front matter or TOC: exactly one ATX heading line, "#" x clamp(1 + offset, 1, max) + " TitleX"
+func H_C15_pptx_heading_options() {
+	off := []int{-1, 0, 2, 7}[vAnyIntIn(0, 3)]
+	max := []int{1, 3, 6}[vAnyIntIn(0, 2)]
+	r := &Reader{slides: []*Slide{{Index: 0, Title: "TitleX", Content: []TextBlock{{Text: "TitleX", IsTitle: true}, {Text: "Body words."}}}}}
+	opts := rag.DefaultMarkdownOptions()
+	opts.IncludeMetadata, opts.IncludeTableOfContents = false, false
+	opts.HeadingLevelOffset, opts.MaxHeadingLevel = off, max
+	md, err := r.MarkdownWithRAGOptions(ExtractOptions{IncludeTitles: true}, opts)
+	vAssert("markdown-no-error", err == nil)
+	want := 1 + off
+	if want < 1 {
+		want = 1
+	}
+	if want > max {
+		want = max
+	}
+	n := 0
+	for _, ln := range strings.Split(md, "\n") {
+		if strings.HasPrefix(ln, "#") {
+			n++
+			vAssert("heading-level-is-shifted-and-capped", ln == strings.Repeat("#", want)+" TitleX")
+		}
+	}
+	vAssert("exactly-one-heading-line", n == 1)
+	vReach("end")
 }
